@@ -177,6 +177,16 @@ func (x *Exec) seqOf(st *State, v Value) (n *Term, data *Term) {
 		}
 		arr := x.getPath(x.heapGet(st, s.Obj), s.Base)
 		at, ok := arr.(ArrayT)
+		if av, isV := arr.(ArrayV); isV && len(av.E) > 0 {
+			// explicit array (e.g. d[:] over a local [N]byte): as an SMT array
+			if s0, isS := av.E[0].(Scalar); isS {
+				t := ConstArr(ArrS(BV(64), s0.T.S), zeroTerm(s0.T.S))
+				for i, e := range av.E {
+					t = Store(t, Const(64, uint64(i)), e.(Scalar).T)
+				}
+				at, ok = ArrayT{T: t, Len: int64(len(av.E))}, true
+			}
+		}
 		if !ok {
 			fail("seqOf: backing %T", arr)
 		}
@@ -188,6 +198,32 @@ func (x *Exec) seqOf(st *State, v Value) (n *Term, data *Term) {
 	}
 	fail("seqOf: %T", v)
 	return nil, nil
+}
+
+// seqify turns the slice-typed leaves of a value into their pure-contents form (as read out of a lifted container)
+func (x *Exec) seqify(st *State, v Value) Value {
+	switch s := v.(type) {
+	case SliceV:
+		n, data := x.seqOf(st, s)
+		et := types.Type(types.Typ[types.Uint8])
+		if s.Obj != nil {
+			if at, ok := x.getPath(x.heapGet(st, s.Obj), s.Base).(ArrayT); ok {
+				et = at.Elem
+			}
+		}
+		if data == nil {
+			srt, _ := leafSort(et)
+			data = ConstArr(ArrS(BV(64), srt), zeroTerm(srt))
+		}
+		return SeqV{Len: n, Data: data, Elem: et}
+	case StructV:
+		r := StructV{F: make([]Value, len(s.F))}
+		for i := range s.F {
+			r.F[i] = x.seqify(st, s.F[i])
+		}
+		return r
+	}
+	return v
 }
 
 func (x *Exec) nextFresh() int { x.fresh++; return x.fresh }
@@ -215,6 +251,9 @@ func (x *Exec) liftStore(l Value, i *Term, v Value) Value {
 		}
 		return r
 	case SeqL:
+		if sv, ok := v.(SeqV); ok && sv.Data.S == lv.Data.S.Elem {
+			return SeqL{Len: Store(lv.Len, i, sv.Len), Data: Store(lv.Data, i, sv.Data), Elem: lv.Elem}
+		}
 		fail("liftStore: slice leaf needs state (use liftStoreSt)")
 	}
 	fail("liftStore: %T", l)
@@ -542,7 +581,11 @@ func (x *Exec) appendB(st *State, fr *Frame, args []Value, in *ssa.Call) Value {
 	cnt := addLen.Val
 	var vals []Value
 	for k := uint64(0); k < cnt; k++ {
-		vals = append(vals, addAt(Const(64, k)))
+		v := addAt(Const(64, k))
+		if _, isStruct := v.(StructV); isStruct {
+			v = x.seqify(st, v) // slice-typed fields enter a lifted container by content
+		}
+		vals = append(vals, v)
 	}
 	if old.Obj != nil && old.Obj.Owned && old.Off.IsConst() && old.Off.Val == 0 && len(old.Base) == 0 {
 		// the slice came out of an earlier append and is extended in place (linear use of append results:
@@ -603,7 +646,7 @@ func (x *Exec) appendB(st *State, fr *Frame, args []Value, in *ssa.Call) Value {
 				x.store(st, p, vals[k])
 			} else if _, isV := oa.(ArrayV); !isV {
 				cur := x.load(st, p)
-				x.store(st, p, x.mergeV(fits, vals[k], cur))
+				x.store(st, p, x.mergeV(fits, x.seqify(st, vals[k]), x.seqify(st, cur)))
 			}
 		}
 	}
@@ -664,7 +707,24 @@ func (x *Exec) external(st *State, fn *ssa.Function, args []Value, site string) 
 		st.Heap[o.ID] = StructV{F: []Value{args[0]}}
 		return ret(Ptr{Obj: o})
 	case name == "(*bytes.Buffer).Bytes":
+		// trusted model: a bytes.Buffer that is only written to holds its bytes in field 0 (nothing has been read
+		// from it, so the unread portion is the whole content)
 		return ret(x.load(st, args[0].(Ptr)).(StructV).F[0])
+	case name == "(*bytes.Buffer).Len":
+		return ret(Scalar{x.load(st, args[0].(Ptr)).(StructV).F[0].(SliceV).Len})
+	case name == "(*bytes.Buffer).Grow":
+		// reserves capacity only (a negative argument panics; the repository passes constants)
+		if n, ok := args[1].(Scalar); !ok || !n.T.IsConst() || n.T.Val >= 1<<31 {
+			fail("(*bytes.Buffer).Grow with a non-constant or negative argument is not modelled")
+		}
+		return ret(TupleV{})
+	case name == "(*bytes.Buffer).Reset":
+		bv := x.load(st, args[0].(Ptr)).(StructV)
+		nb := StructV{F: append([]Value(nil), bv.F...)}
+		sl := bv.F[0].(SliceV)
+		nb.F[0] = SliceV{Obj: sl.Obj, Base: sl.Base, Off: sl.Off, Len: Const(64, 0), Cap: sl.Cap}
+		x.store(st, args[0].(Ptr), nb)
+		return ret(TupleV{})
 	case name == "strconv.AppendInt":
 		// appends the decimal rendering: length 1..20, content not modelled
 		old := args[0].(SliceV)
